@@ -1,0 +1,8 @@
+//go:build !verif
+// +build !verif
+
+package hls
+
+// verifPoint is a schedule point of the verification harness; without the build tag
+// verif it does nothing.
+func (sg *SegmentGenerator) verifPoint(point string, seq int) {}
